@@ -6,3 +6,4 @@ import StunVerif.Props.C14
 #print axioms StunVerif.C14.stream_prefix
 #print axioms StunVerif.C14.stream_exact
 #print axioms StunVerif.C14.stream_exact_from
+#print axioms StunVerif.C14.src_framing
